@@ -5,7 +5,7 @@ import ast
 
 from .. import genparser
 from ..cfg import CFG
-from ..engine import AnalysisError, PropertySpec, norm
+from ..engine import AnalysisError, MechanismMissing, PropertySpec, norm
 from ..grammar import contexts as g_contexts, ctx_name, parse_grammar
 from ..pyutil import call_name, calls, dotted, is_name, walk_local
 from ._listener import listener_symmetry
@@ -261,7 +261,7 @@ def r04_2(ctx, rep):
                         rep.ob(R, site, "visibility for keyword " + c.value, assigned == {vis_want[c.value]},
                                "after keyword `%s` the handler selects %s" % (c.value, sorted(assigned)))
     if n < 3:
-        raise AnalysisError(R, "fewer than 3 label/visibility instances found")
+        raise MechanismMissing(R, "fewer than 3 label/visibility instances found")
 
 
 # productions that have no handler today: the construct is not supported by pymoca at all
@@ -347,7 +347,7 @@ def r04_4(ctx, rep):
     gp, rules, gctx, ms, generic = _facts(ctx, R)
     fn = ms.get("enterDeclaration")
     if fn is None:
-        raise AnalysisError(R, "enterDeclaration not found")
+        raise MechanismMissing(R, "enterDeclaration not found")
     # local aliases of self.comp_clause.<attr>
     alias = {}
     shared = set()
@@ -366,15 +366,23 @@ def r04_4(ctx, rep):
             elif isinstance(t, ast.Attribute) and isinstance(t.value, ast.Name):
                 shared.add(t.attr)
     if len(shared) < 3:
-        raise AnalysisError(R, "expected >=3 fields shared by reference in enterDeclaration, found %s" % sorted(shared))
+        raise MechanismMissing(R, "expected >=3 fields shared by reference in enterDeclaration, found %s" % sorted(shared))
     COPIERS = {"list", "copy.deepcopy", "copy.copy", "deepcopy", "dict", "tuple"}
+    # fields that a declarator may set for itself after enterDeclaration (e.g. its own array subscripts):
+    # their copy must be taken from the symbol, not from the clause
+    per_symbol = set()
+    xd = ms.get("exitDeclaration")
+    if xd is not None:
+        for n in walk_local(xd):
+            if isinstance(n, ast.Assign) and isinstance(n.targets[0], ast.Attribute) and isinstance(n.targets[0].value, ast.Name):
+                per_symbol.add(n.targets[0].attr)
     for hname in ("exitComponent_clause", "exitComponent_clause1"):
         h = ms.get(hname)
         site = "%s:%s.%s" % (PARSER, L, hname)
         if h is None:
             rep.ob(R, site, "handler", False, "handler missing")
             continue
-        rebound = set()
+        rebound = {}
         for loop in walk_local(h):
             if isinstance(loop, ast.For) and isinstance(loop.iter, ast.Subscript) and "symbol_list" in norm(loop.iter.value):
                 sl = loop.iter.slice
@@ -383,14 +391,25 @@ def r04_4(ctx, rep):
                 for st in ast.walk(loop):
                     if isinstance(st, ast.Assign) and isinstance(st.targets[0], ast.Attribute):
                         v = st.value
-                        if isinstance(v, ast.Call) and (call_name(v) in COPIERS):
-                            rebound.add(st.targets[0].attr)
+                        src = None
+                        if isinstance(v, ast.Call) and (call_name(v) in COPIERS) and v.args:
+                            src = v.args[0]
                         elif isinstance(v, ast.Subscript) and isinstance(v.slice, ast.Slice) and v.slice.lower is None and v.slice.upper is None:
-                            rebound.add(st.targets[0].attr)
+                            src = v.value
+                        if src is not None:
+                            rebound[st.targets[0].attr] = (norm(st.targets[0].value), norm(src))
         for f in sorted(shared):
-            rep.ob(R, site, "field " + f, f in rebound,
-                   "`%s` is shared by all declarators of one clause (enterDeclaration binds the clause's object); the "
-                   "2nd..nth symbol must get its own copy, else e.g. a prefix appended to one symbol shows on its siblings" % f)
+            ok = f in rebound
+            why = "not re-bound to a copy"
+            if ok:
+                owner, src = rebound[f]
+                own_copy = src == "%s.%s" % (owner, f)
+                clause_copy = src.endswith("clause.%s" % f) or src.endswith("comp_clause.%s" % f)
+                ok = own_copy or (clause_copy and f not in per_symbol)
+                why = "copied from `%s`, but a declarator can carry its own `%s` (set in exitDeclaration): the copy must be of %s.%s" % (src, f, owner, f)
+            rep.ob(R, site, "field " + f, ok,
+                   "`%s` is shared by all declarators of one clause (enterDeclaration binds the clause's object); the 2nd..nth symbol "
+                   "must get its own copy OF ITS OWN VALUE — %s" % (f, why))
 
 
 @SPEC.rule(
@@ -501,7 +520,7 @@ def r04_7(ctx, rep):
         rep.ob(R, site, cls + "(initial=)", ok, "the section's initial flag must be `ctx.INITIAL() is not None`")
     fn = ms.get("exitComposition")
     if fn is None:
-        raise AnalysisError(R, "exitComposition not found")
+        raise MechanismMissing(R, "exitComposition not found")
     site = "%s:%s.exitComposition" % (PARSER, L)
     found = 0
     for loop in walk_local(fn):
@@ -535,14 +554,14 @@ def r04_7(ctx, rep):
                 rep.ob(R, site, "non-initial -> " + which[0], tn == [(which[0], which[0])],
                        "otherwise the section's %s must be appended to class_node.%s; found %s" % (which[0], which[0], tn))
     if found < 2:
-        raise AnalysisError(R, "routing branches for equation/algorithm sections not found in exitComposition")
+        raise MechanismMissing(R, "routing branches for equation/algorithm sections not found in exitComposition")
 
 
 @SPEC.rule("R04.8", "listener state symmetry: class_nodes push/pop and the in_extends_clause flag are undone in the matching exit handler")
 def r04_8(ctx, rep):
     n = listener_symmetry(ctx, rep, "R04.8", PARSER, L)
     if n < 2:
-        raise AnalysisError("R04.8", "fewer than 2 enter/exit state pairs found in ASTListener")
+        raise MechanismMissing("R04.8", "fewer than 2 enter/exit state pairs found in ASTListener")
 
 
 @SPEC.rule(
@@ -571,7 +590,7 @@ def r04_9(ctx, rep):
                     rep.ob(R, "%s:%s.%s" % (PARSER, L, name), "%s = %s() is not None" % (flag, tok), flag == tok.lower(),
                            "attribute `%s` is set from the presence of keyword %s" % (flag, tok))
     if n < 5:
-        raise AnalysisError(R, "fewer than 5 keyword flags found")
+        raise MechanismMissing(R, "fewer than 5 keyword flags found")
 
 
 # -- seeded variants ---------------------------------------------------------
